@@ -1039,9 +1039,15 @@ func (g *G) FuncDef() string {
 		fallthrough
 	case g.F.GlobalWrites && g.F.GlobalReads && r.Bool(.1):
 		// deleting an outer binding from inside a function (whether it exists or not varies over the session)
+		tv := "tmpv" + strconv.Itoa(r.Intn(2))
+		if g.F.Catch && r.Bool(.5) {
+			// ... or reading it under catch(): "identifier not found" now, a value once the name is (re)created
+			f.Ret, f.Cost, f.ReadsGlobals = TInt, 10, true
+			g.Funcs = append(g.Funcs, f)
+			return fmt.Sprintf("func %s() { r9 := catch(%s + %d); if r9.err { 0 - 1 } else { r9.value } }", name, tv, r.Intn(5))
+		}
 		f.Ret, f.Cost, f.ReadsGlobals, f.WritesGlobals = TBool, 10, true, true
 		g.Funcs = append(g.Funcs, f)
-		tv := "tmpv" + strconv.Itoa(r.Intn(2))
 		return fmt.Sprintf("func %s() { del(%s) }", name, tv)
 	case g.F.Closures && r.Bool(.25):
 		return g.closureDef(f)
